@@ -13,6 +13,7 @@ are equal or agree to ~2^-50; a model/implementation difference on an input with
 (relative gap < 2^-40) between two candidate ratios is discarded and counted, never reported.
 """
 import math
+import os
 import signal
 from fractions import Fraction
 
@@ -378,6 +379,72 @@ def setups(chk, drv, g):
                 chk.diff('grid used by setupCylindricalGrid', case, list(mg), [n1, n2])
 
 
+def restart_setups(chk, drv, g):
+    """the restart path builds its process grid itself (setupFromFile): same requirements as for setupCylindricalGrid, for process
+    counts close to the number of points of the distributed dimensions"""
+    import shutil
+    import tempfile
+    from mpi4py import MPI
+    common.use_repo(sim_mpi=True, h5=True)
+    from pygyro.initialisation.setups import setupCylindricalGrid, setupFromFile
+    from pygyro.utilities.savingTools import setupSave
+    rng = chk.rng
+    work = tempfile.mkdtemp(prefix='pgc20r')
+    try:
+        for it in range(chk.n(10, 60)):
+            npts = [rng.randint(4, 9), rng.randint(4, 8), rng.randint(4, 6), rng.randint(4, 9)]
+            folder = os.path.join(work, 'r%d' % it)
+
+            def prepare():
+                comm = MPI.COMM_WORLD
+                grid, consts, t = setupCylindricalGrid(layout='v_parallel', npts=list(npts), comm=comm, allocateSaveMemory=True)
+                setupSave(consts, folder, comm)
+                grid.writeH5Dataset(folder, 0)
+                return True
+            w = MPI.run(1, prepare)
+            if not w.ok:
+                chk.fail('C20:setup-raises', 'serial set-up + save raised: ' + str(w.first_error())[:160], {'npts': npts})
+                continue
+            m1, m2 = min(npts[0], npts[3]), min(npts[2], npts[3])
+            # process counts around the admissible maxima
+            for size in sorted({m1, m2, m1 * m2 if m1 * m2 <= 12 else m1 + 1, max(1, m2 - 1), rng.randint(2, 10)}):
+                if size > 12:
+                    continue
+                V = valid_set(m1, m2, size)
+                case = {'npts': npts, 'mpi_size': size, 'path': 'setupFromFile'}
+
+                def body():
+                    comm = MPI.COMM_WORLD
+                    grid, consts, t = setupFromFile(folder, comm=comm, allocateSaveMemory=True)
+                    lm = grid._layout_manager
+                    return {'nprocs': [int(x) for x in lm.nProcs], 'shapes': {n: [int(x) for x in lm.getLayout(n).shape] for n in NAMES}}
+                res = MPI.run(size, body, policy='random', seed=it)
+                chk.count('restart set-up ranks=%d: %s' % (size, 'built' if res.ok else 'refused'))
+                chk.case(('restart-setup', tuple(npts), size), nontrivial=size > 1 and bool(V))
+                if not res.ok:
+                    err = str(res.first_error())
+                    if V:
+                        chk.fail('C20:setup-raises', 'setupFromFile raises although a valid process grid exists: ' + err[:160], case,
+                                 expected={'one of': [list(v) for v in V]})
+                    elif MSG not in err:
+                        chk.fail('C20:setup-other-error', 'no factorisation exists, expected RuntimeError(%s), got %s' % (MSG, err[:160]), case)
+                    continue
+                vals = res.values()
+                if not V:
+                    chk.fail('C20:grid-but-none-exists', 'setupFromFile builds layouts although no valid factorisation exists', case, actual=vals[0]['nprocs'])
+                    continue
+                n1, n2 = vals[0]['nprocs'][:2]
+                if n1 * n2 != size or (n1, n2) not in V:
+                    chk.fail('C20:invalid-grid', 'process grid chosen by setupFromFile is not a valid factorisation', case, actual=[n1, n2])
+                    continue
+                empty = [(r, n) for r, v in enumerate(vals) for n in NAMES if min(v['shapes'][n]) < 1]
+                if empty:
+                    chk.fail('C20:empty-block', 'after setupFromFile a process owns no point in some dimension of a standard layout', case,
+                             actual={'nprocs': [n1, n2], 'rank, layout': empty[:4]})
+    finally:
+        shutil.rmtree(work, ignore_errors=True)
+
+
 def source_facts(chk):
     """the facts of setups.py the theorem is stated about: both set-up routines use the same three layouts and call
     compute_2d_process_grid(constants.npts, mpi_size)"""
@@ -411,6 +478,7 @@ def run(chk):
         randoms(chk, drv, compute_2d_process_grid_from_max)
         from_npts(chk, drv, compute_2d_process_grid)
         setups(chk, drv, compute_2d_process_grid)
+        restart_setups(chk, drv, compute_2d_process_grid)
     finally:
         signal.setitimer(signal.ITIMER_REAL, 0)
         signal.signal(signal.SIGALRM, old)
